@@ -97,5 +97,6 @@ main(int argc, char *argv[])
 		if ((size == 0) != (head.root == NULL)) { printf("FAIL op %ld: root/size disagree\n", op); return 1; }
 	}
 	printf("OK ops=%ld inserts=%ld pops=%ld maxsize=%ld\n", nops, ins, pops, maxseen);
+	free(items);
 	return 0;
 }
